@@ -466,3 +466,38 @@ Proof.
   intros orc r32 arity st rows. rewrite src_add_observations_is_model. unfold int_add, add_observations. cbn [fst snd].
   destruct (forallb t_mask rows); [apply src_int_add_observations_is_model | reflexivity].
 Qed.
+
+(* ---------- which variant of the interaction model the source is ---------- *)
+(* the translation DETERMINES the three switches of Model/Train.v's interaction model: the fully repaired variant is the
+   only one whose model equals the translated source on all inputs *)
+Definition src_id_oracle : oracle := fun _ x => x.
+Definition view_int (r : result (lookup * legacy)) : option (list Z * list Z * list Z) :=
+  match r with Ok p => Some (lg_cline (snd p), lg_dd1 (snd p), lg_dd2 (snd p)) | Err _ => None end.
+Definition src_w_row (t1 t2 : Z) (o : Q) : trow :=
+  {| t_sample := 0; t_plate := 0; t_treats := [t1; t2]; t_obs := OFin (Q2Qc o); t_mask := true |}.
+
+Theorem int_source_variant_unique : forall fixed_mask guard_neg guard_nan : bool,
+  (forall orc r32 arity st rows,
+     src_int_add_observations orc r32 arity (i_lookup st) (legacy_of (i_train st)) rows
+     = dor s <- int_inner orc r32 fixed_mask guard_neg guard_nan st arity rows; Ok (i_lookup s, legacy_of (i_train s)))
+  <-> (fixed_mask = true /\ guard_neg = true /\ guard_nan = true).
+Proof.
+  intros fm gn gnan. split.
+  - intros H.
+    assert (Hfm : fm = true).
+    { destruct fm; [reflexivity|]. exfalso.
+      pose proof (H src_id_oracle OFin 2%nat istate0 [src_w_row 0 1 (1 # 4); src_w_row (-1) (-1) (1 # 2)]) as E.
+      apply (f_equal view_int) in E. destruct gn, gnan; vm_compute in E; discriminate. }
+    subst fm.
+    assert (Hgn : gn = true).
+    { destruct gn; [reflexivity|]. exfalso.
+      pose proof (H src_id_oracle OFin 2%nat istate0 [src_w_row (-1) (-1) (-3 # 1)]) as E.
+      apply (f_equal view_int) in E. destruct gnan; vm_compute in E; discriminate. }
+    subst gn.
+    assert (Hgnan : gnan = true).
+    { destruct gnan; [reflexivity|]. exfalso.
+      pose proof (H src_id_oracle OFin 2%nat istate0 [src_w_row 0 1 (2 # 1)]) as E.
+      apply (f_equal view_int) in E. vm_compute in E. discriminate. }
+    now subst.
+  - intros (-> & -> & ->). intros orc r32 arity st rows. apply src_int_add_observations_is_model.
+Qed.
